@@ -159,6 +159,20 @@ def install(seed, max_steps=400000, max_virtual=600.0):
 
     _saved.append((WC, 'reinit_comms_for_worker', orig_reinit))
     WC.reinit_comms_for_worker = reinit_comms_for_worker
+
+    # record every value the result iterator hands out (the consumer side of the protocol)
+    IT = mpire.async_result.UnorderedAsyncResultIterator
+    orig_next = IT.__dict__['next']
+
+    def next_(self, block=True, timeout=None):
+        v = orig_next(self, block, timeout)
+        sim.S.rec('iter.next', self.job_id, v)
+        return v
+
+    _saved.append((IT, 'next', orig_next))
+    _saved.append((IT, '__next__', IT.__dict__['__next__']))
+    IT.next = next_
+    IT.__next__ = next_
     return S
 
 
